@@ -3,7 +3,14 @@ EXTENDS QueueEvents
 VARIABLE hist
 mcvars == <<vars, hist>>
 MCInit == Init /\ hist = <<>>
-MCNext == Next /\ hist' = IF act'.op \in {"qinvoke", "wait", "clear", "qcallback"} THEN Append(hist, act') ELSE hist
+\* (Mode.start is a handler like any other: its invocation and its wait are recorded as such; the completion callback of
+\* the mode's stopping event clears that wait just before it is recorded)
+HistAdd == IF act'.op \in {"qinvoke", "wait", "clear"} THEN <<act'>>
+           ELSE IF act'.op = "mreq" THEN <<[op |-> "qinvoke", k |-> act'.k, h |-> ModeH, a |-> "p"]>>
+                                         \o (IF act'.w THEN <<[op |-> "wait", k |-> act'.k, h |-> ModeH]>> ELSE <<>>)
+           ELSE IF act'.op = "qcallback" THEN (IF out' # out THEN <<[op |-> "clear", k |-> md.hold[1], h |-> ModeH]>> ELSE <<>>) \o <<act'>>
+           ELSE <<>>
+MCNext == Next /\ hist' = hist \o HistAdd
 MCSpec == MCInit /\ [][MCNext]_mcvars
 Cnt(P(_)) == Cardinality({i \in DOMAIN hist : P(hist[i])})
 \* exactly-once: never two callbacks for one task
@@ -23,6 +30,13 @@ NoOverlap == \A j \in DOMAIN hist : hist[j].op = "qinvoke" =>
             \E c \in (i + 1)..(j - 1) : hist[c].op = "clear" /\ hist[c].k = hist[i].k /\ hist[c].h = hist[i].h
 PrioOrder == \A i, j \in DOMAIN hist : (i < j /\ hist[i].op = "qinvoke" /\ hist[j].op = "qinvoke" /\ hist[i].k = hist[j].k)
                 => PrioOf(hist[i].k, hist[i].h) >= PrioOf(hist[j].k, hist[j].h) /\ hist[i].h # hist[j].h
+\* a start request which the mode refused (it was starting, active or stopping) never waits: between the invocation of the
+\* mode's handler for it and the next record of its task there is no wait of ModeH unless the mode was idle
+\* (state form: ModeHoldsOnlyStarter, StarterHeld, RefusedNoWait in QueueEvents.tla)
+\* the request which started a use_wait_queue mode completes only after the callback of the mode's stopping event
+StarterAfterStop == \A i, j \in DOMAIN hist :
+    (i < j /\ hist[i].op = "wait" /\ hist[i].h = ModeH /\ hist[j].op = "qcallback" /\ hist[j].k = hist[i].k)
+        => \E p \in (i + 1)..(j - 1) : hist[p].op = "qcallback" /\ tasks[hist[p].k].ev = "mp"
 \* a handler is only called when its condition holds for the posted kwargs, and sees its own kwarg over the posted one
 CondRespected == \A i \in DOMAIN hist : hist[i].op = "qinvoke" =>
     LET x == CHOOSE x \in snapp[hist[i].k] : x.id = hist[i].h
